@@ -28,7 +28,7 @@ def describe (out : Bytes) : String :=
   match parseObj out with
   | none => s!"ok {Hex.enc out} v=0 m=x"
   | some ms =>
-    if !(ByteArray.mk out.toArray).validateUTF8 then s!"ok {Hex.enc out} v=1 m=nonutf8"
+    if !validUtf8 out then s!"ok {Hex.enc out} v=1 m=nonutf8"
     else s!"ok {Hex.enc out} v=1 m={hexList (ms.flatMap fun p => [p.1, tag p.2])}"
 
 def big : Int := 4611686018427387904
